@@ -258,7 +258,7 @@ def cases(tier):
     for slot in ("val", "tag", "data"):
         cs.append(dict(name="d2-after-rejected-stanza[%s,n=1]" % slot, fn=h_d2_after_rejected, args=(slot, 1), weight=20, timeout_s=300 if q else 3000, max_paths=400000))
     for cls in ("digits", "nibble", "hex", "HEX-only"):
-        longs = (127, 128) if q else (126, 127, 128, 129, 254, 255)
+        longs = (127, 128, 255) if q else (126, 127, 128, 129, 254, 255, 256)
         for n in ((1, 2, 3, 4) + longs if cls in ("digits", "HEX-only") else (1, 2, 3, 4)):
             cs.append(dict(name="d2-class[%s,n=%d]" % (cls, n), fn=h_d2_class, args=(cls, n), weight=1 + n / 6.0, timeout_s=600))
             for chn in (("default", "unpacked", "literal") if n < 100 or not q else ("default",)):
